@@ -16,6 +16,7 @@ let amb_ell = ref 0
 let simplex_worst = ref 0.0
 let sigma_worst = ref 0.0
 let multi_checked = ref 0
+let last_conv : (string * bool * bool) option ref = ref None
 let report what id detail =
   incr mism;
   incr printed;
@@ -205,7 +206,8 @@ let handle_bundle id rest =
       if amb_e || amb_s then (incr ambiguous; incr amb_conv);
       if (not amb_e) && econv tol b <> ec then report "econverged" id (Printf.sprintf "model=%b impl=%b se=%h tol=%h" (econv tol b) ec (float_of_q mse) (float_of_q tol));
       if (not amb_s) && sconv tol b <> sc then report "sconverged" id (Printf.sprintf "model=%b impl=%b |s|^2=%h tol=%h" (sconv tol b) sc (float_of_q mss2) (float_of_q tol));
-      if (not amb_e) && (not amb_s) && cs_converged tol b <> (ec && sc) then report "cs-converged" id ""
+      if (not amb_e) && (not amb_s) && cs_converged tol b <> (ec && sc) then report "cs-converged" id "";
+      last_conv := Some (id, ec && sc, amb_e || amb_s)
   | "APP" ->
       let s = Hashtbl.find sessions id in
       let a = kvs args in
@@ -329,7 +331,13 @@ let () =
               incr total;
               let z = B.big_int_of_int (int_of_string st) in
               let mi, mc = if which = "rqb" then (src_c03_rqb_iter_ok z, src_c03_rqb_converged z) else (src_c03_fpba_iter_ok z, src_c03_fpba_converged z) in
-              if mi <> (iok = "1") || mc <> (cv = "1") then report "csearch-status" line ""
+              if mi <> (iok = "1") || mc <> (cv = "1") then report "csearch-status" line "";
+              (* the curve search may hand `converged` to the solver only when the bundle's own two tests hold on the final
+                 multipliers (the CONV line printed right before): that is the premise of the certificate theorems *)
+              (match !last_conv with
+               | Some (cid, both, amb) when mc && (not both) && (not amb) ->
+                   report "csearch-converged-without-certificate" cid line
+               | _ -> ())
           | _ -> ()
         end
       with
